@@ -417,12 +417,12 @@ fn classify_false_accept(rej: Rej) -> Option<&'static str> {
 pub fn gen_deep(src: &mut Src) -> RVal {
     let a = *src.pick(&[0usize, 1, 2, 30, 31, 32, 33, 34]);
     let s = *src.pick(&[0usize, 1, 2, 30, 31, 32, 33, 34]);
-    let v = *src.pick(&[0usize, 1, 2, 3, 30, 31]);
+    let v = *src.pick(&[0usize, 1, 2, 3, 30, 31, 63, 64, 65, 66]);
     let mut kinds: Vec<u8> = vec![];
     kinds.extend(std::iter::repeat(b'a').take(a));
     kinds.extend(std::iter::repeat(b'(').take(s));
     kinds.extend(std::iter::repeat(b'v').take(v));
-    kinds.truncate(70);
+    kinds.truncate(110);
     for i in (1..kinds.len()).rev() {
         let j = src.below(i + 1);
         kinds.swap(i, j);
